@@ -429,6 +429,31 @@ func (i *impl) releaseAttempt(outcome string) {
 	close(old)
 }
 
+// awaitResumeRequests: after a recovery every surviving stream sends its resume request (held by the broker until the harness
+// answers it)
+func (i *impl) awaitResumeRequests(h *lp.H) {
+	want := 0
+	for _, st := range i.streams {
+		if st.opened && atomic.LoadInt32(&st.closedEv) == 0 && int(atomic.LoadInt32(&st.attached)) != i.curInc() {
+			want++
+		}
+	}
+	cur := i.curIncPtr()
+	if !waitUntil(wd, func() bool {
+		i.mu.Lock()
+		defer i.mu.Unlock()
+		n := 0
+		for _, hh := range i.held {
+			if hh.inc == cur && hh.msg != nil {
+				n++
+			}
+		}
+		return n >= want
+	}) {
+		h.Violate(fmt.Sprintf("after the recovery %d stream(s) should send a resume request; fewer arrived within %v: a stream is left detached", want, wd))
+	}
+}
+
 func (i *impl) newGate() {
 	i.b.Lock()
 	i.gate = make(chan struct{})
@@ -525,6 +550,27 @@ func (i *impl) exec(h *lp.H, op string) string {
 				h.Violate("a request after Close neither fails nor returns")
 			}
 		}
+	case "killfast":
+		// the transport fails and the redial succeeds at once (no gate): the outage is over before most goroutines have seen it
+		if i.status() != "c" {
+			break
+		}
+		d0, rc0 := atomic.LoadInt32(&i.disc), atomic.LoadInt32(&i.reconn)
+		i.b.Lock()
+		i.b.DialGate = nil
+		i.b.Unlock()
+		i.ackAttempts++
+		if cur := i.curIncPtr(); cur != nil {
+			cur.Kill()
+		}
+		if !waitUntil(wd, func() bool { return atomic.LoadInt32(&i.disc) > d0 && atomic.LoadInt32(&i.reconn) > rc0 && i.status() == "c" }) {
+			h.Violate(fmt.Sprintf("the transport failed and the immediate redial succeeded, but within %v the connection did not report disconnected+reconnected (status %s)", wd, i.status()))
+			break
+		}
+		i.b.Lock()
+		i.released = i.b.Dials
+		i.b.Unlock()
+		i.awaitResumeRequests(h)
 	case "kill":
 		if i.status() == "c" {
 			// every resuming stream has its resume request at the broker (held): the cut is well defined
@@ -578,26 +624,7 @@ func (i *impl) exec(h *lp.H, op string) string {
 				}
 			}
 		}
-		want := 0
-		for _, st := range i.streams {
-			if st.opened && atomic.LoadInt32(&st.closedEv) == 0 && int(atomic.LoadInt32(&st.attached)) != i.curInc() {
-				want++
-			}
-		}
-		cur := i.curIncPtr()
-		if !waitUntil(wd, func() bool {
-			i.mu.Lock()
-			defer i.mu.Unlock()
-			n := 0
-			for _, hh := range i.held {
-				if hh.inc == cur && hh.msg != nil {
-					n++
-				}
-			}
-			return n >= want
-		}) {
-			h.Violate(fmt.Sprintf("after the recovery %d stream(s) should send a resume request; fewer arrived within %v: a stream is left detached", want, wd))
-		}
+		i.awaitResumeRequests(h)
 	case "resume":
 		sid, _ := strconv.Atoi(w[1])
 		if i.status() != "c" || sid < 1 || sid > len(i.streams) {
@@ -1151,6 +1178,17 @@ func main() {
 					}
 				}
 				sig += "Q"
+			case status == "c" && r >= 38 && r < 46:
+				do("killfast")
+				for k := 1; k <= nstreams; k++ {
+					if resuming[k] {
+						closedS[k] = true
+						delete(resuming, k)
+					} else if !closedS[k] {
+						resuming[k] = true
+					}
+				}
+				sig += "K"
 			case status == "c" && r < 58:
 				do("kill")
 				status, fails, attempting = "r", 0, true
